@@ -38,6 +38,9 @@ var c07Carriers = []string{"GetBlob", "GetBlobRange", "GetManifest", "GetTag", "
 	"Repositories", "Tags", "Referrers",
 	// the error arises later, in the BlobWriter the backend handed out
 	"Writer.Write", "Writer.Close", "Writer.Commit",
+	// the Write fails with the error under test and the Close of that failed writer
+	// fails too, with something else: the caller must hear about the former
+	"Writer.Write+Close",
 	// resume that asks the registry for the offset (a GET of the upload status)
 	"PushBlobChunkedResume.ask"}
 
@@ -49,7 +52,7 @@ type failingWriter struct {
 }
 
 func (w *failingWriter) Write(p []byte) (int, error) {
-	if w.fail == "Writer.Write" {
+	if w.fail == "Writer.Write" || w.fail == "Writer.Write+Close" {
 		return 0, w.err
 	}
 	w.n += int64(len(p))
@@ -58,6 +61,9 @@ func (w *failingWriter) Write(p []byte) (int, error) {
 func (w *failingWriter) Close() error {
 	if w.fail == "Writer.Close" {
 		return w.err
+	}
+	if w.fail == "Writer.Write+Close" {
+		return ociregistry.NewError("the failed writer could not be closed cleanly either", "BLOB_UPLOAD_UNKNOWN", nil)
 	}
 	return nil
 }
@@ -205,7 +211,7 @@ func c07(env *core.Env) {
 			}
 			_, err := r.PushBlobChunkedResume(ctx, repo, id, -1, 0)
 			return err
-		case "Writer.Write", "Writer.Close", "Writer.Commit":
+		case "Writer.Write", "Writer.Close", "Writer.Commit", "Writer.Write+Close":
 			w, err := r.PushBlobChunked(ctx, repo, 1)
 			if err != nil {
 				return fmt.Errorf("harness: upload could not be started: %v", err)
